@@ -50,7 +50,8 @@ type Exec struct {
 	sym             *SymTab
 	heap0           map[string]*Term
 	heapSorts       map[string]Sort
-	heapElemTy      map[string]*Ty // element / pointee type of H_ and P_ heaps (for stored-value invariants)
+	boxKinds        map[string]boxKind // typed box functions in use (goexpr.go)
+	heapElemTy      map[string]*Ty     // element / pointee type of H_ and P_ heaps (for stored-value invariants)
 	obls            []*Obligation
 	entry           *State
 	entryVals       map[string]Val // param name -> entry value
@@ -399,6 +400,9 @@ func (x *Exec) doReturn(st *State, vals []Val, pos token.Pos) {
 	if vals != nil {
 		for i, rv := range fr.resVars {
 			ty := x.w.goTy(rv.Type(), x.model.BV)
+			if ty.K == TOpaque && vals[i].Ty.K != TOpaque {
+				vals[i] = x.toInterface(vals[i], ty, nil)
+			}
 			st.vars[rv] = x.coerceTo(vals[i], ty)
 		}
 	}
